@@ -324,6 +324,52 @@ Definition diff_seq (d : diff) : list rr :=
 Definition ixfr_seq (snew : N) (ds : list diff) : list rr :=
   Soa snew :: concat (map diff_seq ds) ++ [Soa snew].
 
+(* ---- XfrMiddlewareSvc::preprocess: which answer for which request and zone
+   state (net/server/middleware/xfr/service.rs).  Serials are compared with
+   Serial's PartialOrd (`query_serial >= soa.serial()`), i.e. C17's serial_ge. *)
+Inductive prov_result :=
+| PData (ndiffs : N) (compat : bool)     (* Ok(XfrData): number of diffs, compatibility mode *)
+| PParse | PUnknown | PUnavailable | PRefused.
+
+Record xreq := mkReq {
+  rq_relevant : bool;        (* opcode QUERY, QR clear, exactly one question *)
+  rq_qtype : N;
+  rq_serial : option N;      (* serial of the first SOA in the authority section *)
+  rq_udp : bool }.
+
+Inductive decision :=
+| DContinue                  (* not ours: passed to the next service *)
+| DErr (rcode : N)           (* Err(OptRcode) *)
+| DNotimp                    (* a NOTIMP response (AXFR over UDP) *)
+| DAxfr (one_rr_per_msg : bool)   (* the whole zone, AXFR-style *)
+| DSingleSoa                 (* the zone SOA alone: the client is not behind *)
+| DIxfr                      (* difference sequences *)
+| DPanic.                    (* unreachable!(): diffs for an AXFR question *)
+
+Definition decide (rq : xreq) (pr : prov_result) (zone_serial : option N) : decision :=
+  if negb (rq_relevant rq && ((rq_qtype rq =? qtype_axfr) || (rq_qtype rq =? qtype_ixfr))) then DContinue
+  else if (rq_qtype rq =? qtype_ixfr) && (match rq_serial rq with None => true | Some _ => false end)
+  then DErr rc_ixfr_no_soa
+  else match pr with
+  | PParse => DErr rc_prov_parse
+  | PUnknown => DErr rc_prov_unknown
+  | PUnavailable => DErr rc_prov_unavailable
+  | PRefused => DErr rc_prov_refused
+  | PData n compat =>
+      match zone_serial with
+      | None => DErr rc_no_soa
+      | Some zs =>
+          if (rq_qtype rq =? qtype_axfr) && rq_udp rq then DNotimp
+          else if n =? 0 then DAxfr (compat && (if sender_compat_axfr_only then rq_qtype rq =? qtype_axfr else true))
+          else if rq_qtype rq =? qtype_ixfr then
+            match rq_serial rq with
+            | Some qs => if C17.Model.serial_ge qs zs then DSingleSoa else DIxfr
+            | None => DPanic
+            end
+          else DPanic
+      end
+  end.
+
 (* ---- the stream client's end-of-transfer detection:
    net/client/stream.rs check_stream / XFRState (per response message; the
    is_answer and RCODE branches are C15's: here the message answers the request
@@ -716,6 +762,7 @@ Definition c10_diff_good (pub : store) (ops : list dop) : bool := good_history_m
 Definition c10_diff_applies_all (pub : store) (ops : list dop) : bool := applies_multi ops (d_start pub).
 Definition c10_diff_applies (pub : store) (ops : list dop) : bool := diff_applies_b pub ops.
 Definition c10_client (q : N) (ms : list msg) : list bool * bool := client_stream (client_init q) ms.
+Definition c10_decide (rq : xreq) (pr : prov_result) (zs : option N) : decision := decide rq pr zs.
 Definition c10_sender_axfr (v : N * list N) : option (list rr) := sender_axfr (zone_of v).
 Definition c10_sender_ixfr (vs : list (N * list N)) : list rr := sender_ixfr vs.
 Definition c10_check (first : bool) (h : hdr) : bool := check_response first h.
